@@ -425,6 +425,90 @@ def vector_escapes(f, v, path):
     return bad
 
 
+def index_guard(F, an, f, bb, own, cap, loops):
+    """Idiom: the only growth site of an initially empty vector sits in a loop driven by a range starting at 0,
+    is executed at most once per iteration with an increment of at most 1, and is reached only through the edge
+    of a comparison `i < C` (any spelling) of the loop index with a constant C <= capacity.  Then
+    len <= i < C <= capacity at the site.  Returns a description or None."""
+    inner = [(h, body) for h, body in loops if bb in body]
+    if len(inner) != 1:
+        return None
+    h, body = inner[0]
+    grow = []
+    for b, t2 in f.calls():
+        if f.blocks[b]["cleanup"]:
+            continue
+        p2 = core.strip_generics(core.callee_path(t2) or "")
+        if p2 in LEN_GROWING and flow.resolve_owner_path(f, t2["args"][0], want_mut=True) == own:
+            grow.append(b)
+    if grow != [bb] or (an.incr.get((f.path, bb)) or 99) > 1:
+        return None
+    # the loop driver: `next` of a Range<usize> whose start is the constant 0
+    idx_local = None
+    for b in body:
+        t = f.blocks[b]["term"]
+        if t["k"] == "call" and core.strip_generics(core.callee_path(t) or "").endswith("::next") and "ops::range::Range<usize>" in (core.op_place(t["args"][0]) or {}).get("ty", ""):
+            it = iter_owner_local(f, t["args"][0])
+            if it is None:
+                continue
+            o = flow.origin(f, {"k": "copy", "place": {"local": it, "proj": []}})
+            if o[0] == "call" and core.strip_generics(core.callee_path(o[2]) or "").endswith("into_iter"):
+                o = flow.origin(f, o[2]["args"][0])
+            rl = None
+            if o[0] == "local" and o[1] is not None:
+                rl = o[1]
+            ds = [d for d in f.defs_of(rl)] if rl is not None else []
+            if len(ds) == 1 and ds[0][1] != "term" and ds[0][2]["rv"]["k"] == "aggregate" and "ops::range::Range" in ds[0][2]["rv"].get("path", ""):
+                if core.op_const_val(ds[0][2]["rv"]["ops"][0]) == 0:
+                    idx_local = t["dest"]["local"]
+    if idx_local is None:
+        return None
+
+    def is_index(o):
+        """operand is a copy of (next() as Some).0"""
+        for _ in range(6):
+            p = core.op_place(o)
+            if p is None:
+                return False
+            if p["local"] == idx_local and [e["k"] for e in p["proj"]] == ["downcast", "field"]:
+                return True
+            if p["proj"]:
+                return False
+            ds = f.defs_of(p["local"])
+            if len(ds) != 1 or ds[0][1] == "term" or ds[0][2]["k"] != "assign" or ds[0][2]["rv"]["k"] != "use":
+                return False
+            o = ds[0][2]["rv"]["op"]
+        return False
+    for g in body:
+        t = f.blocks[g]["term"]
+        if t["k"] != "switch" or not f.dominates(g, bb) or g == bb:
+            continue
+        l = core.op_local(t["discr"])
+        ds = f.defs_of(l) if l is not None else []
+        if len(ds) != 1 or ds[0][1] == "term" or ds[0][2]["rv"]["k"] != "binop":
+            continue
+        rv = ds[0][2]["rv"]
+        op, a, b_ = rv["op"], rv["a"], rv["b"]
+        c = core.op_const_val(b_)
+        if not is_index(a) or c is None:
+            continue
+        zero_t = [tg for v, tg in t["targets"] if v == 0]
+        other = t.get("otherwise")
+        if op in ("Ge", "Gt") and zero_t:
+            edge, bound = zero_t[0], (c if op == "Ge" else c + 1)
+        elif op in ("Lt", "Le") and other is not None:
+            edge, bound = other, (c if op == "Lt" else c + 1)
+        else:
+            continue
+        if bound <= cap and flow.edge_dominates(f, g, edge, bb):
+            return "one growth site per iteration of a loop over 0.., reached only when index < %d <= capacity %d (guard at %s)" % (bound, cap, f.loc(g))
+    return None
+
+
+def iter_owner_local(f, operand):
+    return flow.resolve_owner(f, operand, want_mut=True)
+
+
 def capacity_budget(F, an, sites):
     """Idiom: a vector created empty in this function (directly, or as a field of a value created by a
     local `default()`), grown only by push / extend_from_slice sites whose (increment x enclosing loop trip
@@ -495,7 +579,12 @@ def capacity_budget(F, an, sites):
                 s.status = "budget"
                 s.detail = "capacity budget: %s = %d <= %d" % (" + ".join(parts), total, cap)
             elif ok:
-                s.detail += " | budget: %s = %d > capacity %d" % (" + ".join(parts), total, cap)
+                ig = index_guard(F, an, f, s.bb, own, cap, loops)
+                if ig:
+                    s.status = "budget"
+                    s.detail = "index-guarded budget: %s" % ig
+                else:
+                    s.detail += " | budget: %s = %d > capacity %d" % (" + ".join(parts), total, cap)
             else:
                 s.detail += " | budget: a loop trip count or increment is unknown"
 
